@@ -16,7 +16,7 @@ func init() {
 	register(&PropDef{
 		ID:    "C47",
 		Pkgs:  []string{xmatch, xdsrsrc, xrbac},
-		Claim: "Decides the structural part (sibling cross-check over every type implementing matcher.HeaderMatcher): the header value is obtained once through valueFromMD (comma-join of md[key]) with the matcher's own key; an absent header returns constant false before invert is consulted; the result is predicate != invert with the type's predicate (==, HasPrefix, HasSuffix, Contains, Regexp.MatchString, StringMatcher.Match), the range matcher parses base 10 and returns !invert exactly on err==nil && start <= i && i < end; the presence matcher compares presence and folds invert at construction; every regexp stored in a header/string matcher originates from CompileSafeRegex (anchored ^(?:...)$); no function of the matcher package or of the xDS path matchers calls a Unicode case mapping (strings.ToLower/ToUpper/EqualFold/Title, unicode.*): case-insensitive arms fold both pattern and input through the package's ASCII-only fold, whose only byte writes are on 'A'..'Z' (resp. 'a'..'z') by +/-32; empty prefix/suffix/contains patterns and unknown pattern kinds are rejected.",
+		Claim: "Decides the structural part (sibling cross-check over every type implementing matcher.HeaderMatcher): the header value is obtained once through valueFromMD (comma-join of md[key]) with the matcher's own key; an absent header returns constant false before invert is consulted; the result is predicate != invert with the type's predicate (==, HasPrefix, HasSuffix, Contains, Regexp.MatchString, StringMatcher.Match), the range matcher parses base 10 and returns !invert exactly on err==nil && start <= i && i < end; the presence matcher compares presence and folds invert at construction; every regexp stored in a header/string matcher originates from CompileSafeRegex (anchored ^(?:...)$); no function of the matcher package or of the xDS path matchers calls a Unicode case mapping (strings.ToLower/ToUpper/EqualFold/Title, unicode.*): case-insensitive arms fold both pattern and input through the package's ASCII-only fold, whose only byte writes are on 'A'..'Z' (resp. 'a'..'z') by +/-32; empty prefix/suffix/contains patterns and unknown pattern kinds are rejected. The range matcher reports no match only when the value is unparsable or outside [start,end), and the ASCII fold helpers skip a byte only outside the letter range and are bounds-safe.",
 		NotDecided:  []string{"regexp engine semantics", "that strconv.ParseInt accepts exactly base-10 integers (library contract)", "value-level equality of matcher results over all header maps"},
 		Assumptions: []string{"strings.HasPrefix/HasSuffix/Contains/Join and regexp contracts"},
 		Technique:   "static analysis: sibling cross-check of all implementations of one interface over go/ssa (return-value shapes, dominating guards), value-origin of stored regexps across constructor call sites, who-may-call with expected count zero plus positive control, byte-write guard check of the ASCII fold",
